@@ -56,6 +56,13 @@ func (in *Interp) makeExternals() map[string]extFn {
 		c := fieldPtr(p, 2)
 		old := (*c).(*Term)
 		nv := int64(int32(old.K)) + d
+		if in.schedOn() {
+			in.thread.muteCells++
+			defer func() { in.thread.muteCells-- }()
+			in.sev(&SEvent{Kind: "wg-add", Obj: in.lockName(p.(*Value)), N: d})
+			*c = tc.BV(32, uint64(int64(int32(old.K))+d))
+			return
+		}
 		in.event(Event{Kind: "wg-add", Obj: in.objName(p.(*Value)), N: d})
 		if nv < 0 {
 			panic(targetPanic{Iface{T: types.Typ[types.String], V: "sync: negative WaitGroup counter"}})
@@ -69,6 +76,10 @@ func (in *Interp) makeExternals() map[string]extFn {
 	m["(*sync.WaitGroup).Done"] = func(fr *frame, a []Value) Value { wgAdd(a[0], -1); return nil }
 	m["(*sync.WaitGroup).Wait"] = func(fr *frame, a []Value) Value {
 		c := fieldPtr(a[0], 2)
+		if in.schedOn() {
+			in.sev(&SEvent{Kind: "wg-wait", Obj: in.lockName(a[0].(*Value))})
+			return nil
+		}
 		in.event(Event{Kind: "wg-wait", Obj: in.objName(a[0].(*Value))})
 		if (*c).(*Term).K != 0 && in.thread == nil {
 			if in.param("wg_wait_nonblocking", 0) == 1 {
@@ -80,6 +91,14 @@ func (in *Interp) makeExternals() map[string]extFn {
 	}
 	// ----- sync.Pool: field 1 (local) holds the bag, field 5 is New -----
 	m["(*sync.Pool).Get"] = func(fr *frame, a []Value) Value {
+		if in.schedOn() {
+			// schedule mode: pools are not shared between threads (recycling is C18's subject)
+			newf := (*a[0].(*Value)).(Struct)[5]
+			if isNilValue(newf) {
+				return Iface{}
+			}
+			return in.call(fr, fr.callPos, newf, nil)
+		}
 		local := fieldPtr(a[0], 1)
 		bag, _ := (*local).(UnsafePtr).P.(*poolBag)
 		n := 0
@@ -109,7 +128,7 @@ func (in *Interp) makeExternals() map[string]extFn {
 		return in.call(fr, fr.callPos, newf, nil)
 	}
 	m["(*sync.Pool).Put"] = func(fr *frame, a []Value) Value {
-		if isNilValue(a[1]) {
+		if isNilValue(a[1]) || in.schedOn() {
 			return nil
 		}
 		local := fieldPtr(a[0], 1)
@@ -179,6 +198,14 @@ func (in *Interp) makeExternals() map[string]extFn {
 			panic(runtimeError("invalid memory address or nil pointer dereference"))
 		}
 		in.cellEventAtomic(p, false)
+		if in.thread != nil {
+			if v, ok := in.schedAtomicLoad(p); ok {
+				return v
+			}
+			if v, ok := in.schedLoad(p); ok {
+				return v
+			}
+		}
 		return *p
 	}
 	atomicStore := func(fr *frame, a []Value) Value {
@@ -187,11 +214,47 @@ func (in *Interp) makeExternals() map[string]extFn {
 			panic(runtimeError("invalid memory address or nil pointer dereference"))
 		}
 		in.cellEventAtomic(p, true)
+		if in.thread != nil {
+			in.schedStoreValue(p, a[1])
+		}
 		*p = a[1]
 		return nil
 	}
 	atomicCAS := func(fr *frame, a []Value) Value {
 		p := a[0].(*Value)
+		if in.schedOn() {
+			if name, ok := in.thread.full.cells[p]; ok && in.thread.atomics[name] {
+				oldT, okO := a[1].(*Term)
+				newT, okN := a[2].(*Term)
+				cur, okC := (*p).(*Term)
+				if okO && okN && okC {
+					ev := in.sev(&SEvent{Kind: "rmw", Obj: name})
+					x := tc.Var(fmt.Sprintf("X_%s_%d_w%d", in.thread.full.name, len(in.thread.trace.Events), cur.W), cur.W)
+					ev.X = x
+					in.constrainX(name, x)
+					seen := tc.Bin(OpAdd, cur, x)
+					if in.branch(tc.Eq(seen, oldT)) {
+						d, okD := constDiff(tc, newT, oldT)
+						if !okD {
+							panic(engineErr{"CAS with symbolic delta"})
+						}
+						ev.Delta = d
+						*p = tc.Bin(OpAdd, cur, tc.BV(cur.W, uint64(d)))
+						return tc.True
+					}
+					ev.Kind = "ard"
+					// a CAS fails only if another thread's RMW came in between: bounded by their number
+					if in.thread.casFails == nil {
+						in.thread.casFails = map[string]int{}
+					}
+					in.thread.casFails[name]++
+					if in.thread.casFails[name] > len(in.thread.deltas[name]) {
+						panic(pathEnd{"assume", "more CAS failures than RMWs of the other threads"})
+					}
+					return tc.False
+				}
+			}
+		}
 		in.cellEventAtomic(p, true)
 		eq := in.equals(*p, a[1])
 		if in.branch(eq) {
@@ -390,15 +453,46 @@ func (in *Interp) makeExternals() map[string]extFn {
 
 // ---------- mutex models ----------
 
+func (in *Interp) lockName(obj *Value) string {
+	if in.schedOn() {
+		if n, ok := in.thread.full.cells[obj]; ok {
+			return n
+		}
+		return in.thread.full.name + ":" + in.objName(obj)
+	}
+	return in.objName(obj)
+}
+
+func (in *Interp) lockEvent(kind, name, mode string, self, nested bool) {
+	if in.schedOn() {
+		if nested {
+			return
+		}
+		th := in.thread
+		if th.secCount == nil {
+			th.secCount, th.heldSec, th.decided, th.ownWrote = map[string]int{}, map[string]lockRef{}, map[string]bool{}, map[string]bool{}
+		}
+		if kind == "acq" && !self {
+			th.secCount[name]++
+			th.heldSec[name] = lockRef{Mode: mode, Sec: th.secCount[name]}
+		} else if kind == "rel" {
+			delete(th.heldSec, name)
+		}
+		in.sev(&SEvent{Kind: kind, Obj: name, Mode: mode, Self: self})
+		return
+	}
+	in.event(Event{Kind: kind, Obj: name, Mode: mode, Self: self, Nested: nested})
+}
+
 func (in *Interp) mutexLock(obj *Value, st *Value, mode string) {
-	name := in.objName(obj)
+	name := in.lockName(obj)
 	if in.thread != nil {
 		if in.thread.held[obj] != "" {
-			in.event(Event{Kind: "acq", Obj: name, Mode: mode, Self: true})
+			in.lockEvent("acq", name, mode, true, false)
 			panic(pathEnd{"deadlock", "re-lock of " + name + " by the thread holding it"})
 		}
 		in.thread.held[obj] = mode
-		in.event(Event{Kind: "acq", Obj: name, Mode: mode})
+		in.lockEvent("acq", name, mode, false, false)
 		return
 	}
 	in.event(Event{Kind: "acq", Obj: name, Mode: mode})
@@ -409,8 +503,8 @@ func (in *Interp) mutexLock(obj *Value, st *Value, mode string) {
 }
 
 func (in *Interp) mutexUnlock(obj *Value, st *Value, mode string) {
-	name := in.objName(obj)
-	in.event(Event{Kind: "rel", Obj: name, Mode: mode})
+	name := in.lockName(obj)
+	in.lockEvent("rel", name, mode, false, false)
 	if in.thread != nil {
 		if in.thread.held[obj] == "" {
 			panic(targetPanic{Iface{T: types.Typ[types.String], V: "sync: unlock of unlocked mutex"}})
@@ -425,7 +519,7 @@ func (in *Interp) mutexUnlock(obj *Value, st *Value, mode string) {
 }
 
 func (in *Interp) rwLock(obj *Value, write bool) {
-	name := in.objName(obj)
+	name := in.lockName(obj)
 	w := &(*fieldPtr(obj, 0)).(Struct)[0] // w.state
 	rc := fieldPtr(obj, 1)                // writerSem reused as reader count
 	mode := "R"
@@ -437,15 +531,15 @@ func (in *Interp) rwLock(obj *Value, write bool) {
 			// Go's RWMutex: recursive read locking is unsafe only with a waiting
 			// writer; W after R/W and R after W by the same thread self-deadlock.
 			if write || h == "W" {
-				in.event(Event{Kind: "acq", Obj: name, Mode: mode, Self: true})
+				in.lockEvent("acq", name, mode, true, false)
 				panic(pathEnd{"deadlock", "re-lock of " + name + " by the thread holding it"})
 			}
 			in.thread.rdepth[obj]++
-			in.event(Event{Kind: "acq", Obj: name, Mode: mode, Nested: true})
+			in.lockEvent("acq", name, mode, false, true)
 			return
 		}
 		in.thread.held[obj] = mode
-		in.event(Event{Kind: "acq", Obj: name, Mode: mode})
+		in.lockEvent("acq", name, mode, false, false)
 		return
 	}
 	in.event(Event{Kind: "acq", Obj: name, Mode: mode})
@@ -463,7 +557,7 @@ func (in *Interp) rwLock(obj *Value, write bool) {
 }
 
 func (in *Interp) rwUnlock(obj *Value, write bool) {
-	name := in.objName(obj)
+	name := in.lockName(obj)
 	w := &(*fieldPtr(obj, 0)).(Struct)[0]
 	rc := fieldPtr(obj, 1)
 	mode := "R"
@@ -473,14 +567,14 @@ func (in *Interp) rwUnlock(obj *Value, write bool) {
 	if in.thread != nil {
 		if in.thread.rdepth[obj] > 0 && !write {
 			in.thread.rdepth[obj]--
-			in.event(Event{Kind: "rel", Obj: name, Mode: mode, Nested: true})
+			in.lockEvent("rel", name, mode, false, true)
 			return
 		}
 		if in.thread.held[obj] != mode {
 			panic(targetPanic{Iface{T: types.Typ[types.String], V: "sync: unlock of unlocked RWMutex"}})
 		}
 		delete(in.thread.held, obj)
-		in.event(Event{Kind: "rel", Obj: name, Mode: mode})
+		in.lockEvent("rel", name, mode, false, false)
 		return
 	}
 	in.event(Event{Kind: "rel", Obj: name, Mode: mode})
@@ -680,4 +774,21 @@ func (in *Interp) errorf(fr *frame, format Value, args Slice) Value {
 		*p = Struct{msg, Slice(wrapped)}
 		return Iface{T: types.NewPointer(t), V: p}
 	}
+}
+
+// constDiff returns a-b when it is a constant (also for a = b + k).
+func constDiff(tc *TermCtx, a, b *Term) (int64, bool) {
+	d := tc.Bin(OpSub, a, b)
+	if d.IsConst() {
+		return d.Int64(), true
+	}
+	if a.Op == OpAdd {
+		if a.A[0] == b && a.A[1].IsConst() {
+			return a.A[1].Int64(), true
+		}
+		if a.A[1] == b && a.A[0].IsConst() {
+			return a.A[0].Int64(), true
+		}
+	}
+	return 0, false
 }
